@@ -210,6 +210,19 @@ def units(rng, tier):
             idx.insert(rng.randrange(1, len(idx)), rng.choice(recs))      # two calls on unhashable record items in every history
         calls = [{"port": POOL[i]["port"], "args": POOL[i]["args"]} for i in idx]
         us.append({"kind": "history", "params": {"calls": calls}, "cmp": None, "family": "random-history"})
+    # LONG histories: a few small complete-KK / SNP calls on which the differencing heuristic alone is not optimal, then dozens of heavy
+    # three-way searches on 13-14 items (several hundred thousand search nodes in one process), then the small calls again - a budget,
+    # counter or table that outlives a call changes the later answers
+    for _h in range(1 if tier == "quick" else 3):
+        small = []
+        for v in ([4, 5, 6, 7, 8], [5, 5, 6, 6, 7, 7, 8], [3, 4, 4, 5, 6, 7, 7], [8, 7, 6, 5, 4, 4, 2]):
+            small.append({"port": "partition", "args": part_unit("ckk", 2, v, rng, fmt="list", out="sums")["params"]})
+            small.append({"port": "partition", "args": part_unit("snp", 3, v + [9, 11], rng, fmt="list", out="sums")["params"]})
+        heavy = []
+        for j in range(45):
+            v = [rng.randint(5, 99) for _ in range(rng.choice([13, 14]))]
+            heavy.append({"port": "partition", "args": part_unit("ckk", 3, v, rng, fmt="list", out="sums")["params"]})
+        us.append({"kind": "history", "params": {"calls": small + heavy + small}, "cmp": None, "family": "long-history-heavy-searches"})
     # histories of bin-completion searches, each made twice in a row (see build_pool)
     per = 60
     for i in range(0, len(SEARCHES), per):
@@ -277,7 +290,7 @@ def nontrivial(u, impl, model):
     calls = u["params"]["calls"]
     algos = set(c["args"].get("algo") for c in calls)
     keys = [json.dumps(c, sort_keys=True) for c in calls]
-    if u.get("family") == "bc-searches-twice":
+    if u.get("family") in ("bc-searches-twice", "long-history-heavy-searches"):
         return len(calls) >= 12 and len(set(keys)) < len(keys)
     return len(calls) >= 12 and len(algos) >= 5 and len(set(keys)) < len(keys)
 
